@@ -58,3 +58,7 @@ verus! {
 /// `a.min(b)` for the index-loop forms of zip / take (verified, not trusted)
 pub fn pv_min_usize(a: usize, b: usize) -> (r: usize) ensures r == (if a <= b { a } else { b }) { if a <= b { a } else { b } }
 } // verus!
+
+verus! {
+pub assume_specification<T>[ core::mem::drop::<T> ](x: T);
+} // verus!
